@@ -80,6 +80,86 @@ def undo_private_renames(model) -> Dict[str, str]:
     return renames
 
 
+def local_shape(fnode) -> Tuple[str, List[str]]:
+    """(digest, locals in order of first occurrence) of a function with its LOCAL names abstracted: two functions that differ only by a
+    consistent renaming of locals (names bound in the function that are neither parameters nor declared global / nonlocal) have the same
+    digest.  Nested functions and lambdas keep their own scopes: a function containing one is not abstracted (digest of the plain dump)."""
+    import hashlib
+    node = copy.deepcopy(fnode)
+    if node.body and isinstance(node.body[0], ast.Expr) and isinstance(node.body[0].value, ast.Constant) and isinstance(node.body[0].value.value, str):
+        node.body = node.body[1:] or [ast.Pass()]
+    if any(isinstance(n, (ast.FunctionDef, ast.AsyncFunctionDef, ast.Lambda, ast.ClassDef)) and n is not node for n in ast.walk(node)):
+        return hashlib.sha256(ast.dump(node).encode()).hexdigest()[:16], []
+    a = node.args
+    params = {x.arg for x in a.posonlyargs + a.args + a.kwonlyargs} | ({a.vararg.arg} if a.vararg else set()) | ({a.kwarg.arg} if a.kwarg else set())
+    decl = {nm for n in ast.walk(node) if isinstance(n, (ast.Global, ast.Nonlocal)) for nm in n.names}
+    imported = {(al.asname or al.name).split('.')[0] for n in ast.walk(node) if isinstance(n, (ast.Import, ast.ImportFrom)) for al in n.names}
+    stored = {n.id for n in ast.walk(node) if isinstance(n, ast.Name) and isinstance(n.ctx, (ast.Store, ast.Del))}
+    stored |= {n.name for n in ast.walk(node) if isinstance(n, ast.ExceptHandler) and n.name}
+    loc = stored - params - decl - imported
+    order: List[str] = []
+
+    class V(ast.NodeVisitor):
+        def visit_Name(self, n):
+            if n.id in loc:
+                if n.id not in order:
+                    order.append(n.id)
+                n.id = 'L%d' % order.index(n.id)
+
+        def visit_ExceptHandler(self, n):
+            if n.name in loc:
+                if n.name not in order:
+                    order.append(n.name)
+                n.name = 'L%d' % order.index(n.name)
+            self.generic_visit(n)
+    for st in node.body:
+        V().visit(st)
+    node.name = '_'
+    node.decorator_list = []
+    node.returns = None
+    for x in ast.walk(node):
+        if isinstance(x, ast.arg):
+            x.annotation = None
+        if isinstance(x, ast.AnnAssign):
+            x.annotation = ast.Constant(value=None)
+    return hashlib.sha256(ast.dump(node).encode()).hexdigest()[:16], order
+
+
+def undo_local_renames(model) -> int:
+    """A function whose body equals the reference function up to a consistent renaming of its locals gets the reference names back, in
+    place (first pass of the model build, on the trees as parsed).  Rules that know a local by its name then see the name they were
+    confirmed on; a function that was changed in any other way is left as it is."""
+    try:
+        with open(REFERENCE) as f:
+            ref = json.load(f).get('local_shapes', {})
+    except OSError:
+        return 0
+    n_done = 0
+    for fn in model.all_functions():
+        if fn.kind == 'nested':
+            continue
+        r = ref.get('%s::%s' % (fn.path, fn.qualname))
+        if not r:
+            continue
+        dg, order = local_shape(fn.node)
+        if dg != r[0] or order == r[1] or len(order) != len(r[1]) or len(set(r[1])) != len(r[1]):
+            continue
+        ren = dict(zip(order, r[1]))
+        # two-step renaming (a -> b while b -> c)
+        for n in ast.walk(fn.node):
+            if isinstance(n, ast.Name) and n.id in ren:
+                n.id = '\x00' + ren[n.id]
+            elif isinstance(n, ast.ExceptHandler) and n.name in ren:
+                n.name = '\x00' + ren[n.name]
+        for n in ast.walk(fn.node):
+            if isinstance(n, ast.Name) and n.id.startswith('\x00'):
+                n.id = n.id[1:]
+            elif isinstance(n, ast.ExceptHandler) and n.name and n.name.startswith('\x00'):
+                n.name = n.name[1:]
+        n_done += 1
+    return n_done
+
+
 def load_reference_names() -> Tuple[Dict[str, Set[str]], Dict[str, Set[str]]]:
     try:
         with open(REFERENCE) as f:
@@ -1468,6 +1548,82 @@ def normalise_format_and_getattr(fn) -> int:
     return int(done > 0)
 
 
+def normalise_negations(fn) -> int:
+    """Negations written out, in place: `not (a is None)` -> `a is not None` (is / is not / == / != / in / not in; never the ordering
+    comparisons, whose negation differs for NaN), `not not x` -> `x` in a test position, and `if not X: B else: A` -> `if X: A else: B`
+    (also conditional expressions).  One polarity per test: the path rules and the guard recognisers read tests as written."""
+    if not ({'Not', 'NotEq', 'NotIn'} & _vocab(fn)):
+        return 0
+    done = 0
+    FLIP = {ast.Is: ast.IsNot, ast.IsNot: ast.Is, ast.Eq: ast.NotEq, ast.NotEq: ast.Eq, ast.In: ast.NotIn, ast.NotIn: ast.In}
+
+    def push(e):
+        """e without a leading `not` where that can be written out; (expr, changed)"""
+        if isinstance(e, ast.UnaryOp) and isinstance(e.op, ast.Not):
+            x = e.operand
+            if isinstance(x, ast.UnaryOp) and isinstance(x.op, ast.Not):
+                return push(x.operand)[0], True
+            if isinstance(x, ast.Compare) and len(x.ops) == 1 and type(x.ops[0]) in FLIP:
+                return ast.copy_location(ast.Compare(left=x.left, ops=[FLIP[type(x.ops[0])]()], comparators=x.comparators), e), True
+        return e, False
+
+    class R(ast.NodeTransformer):
+        def visit_UnaryOp(self, n):
+            nonlocal done
+            self.generic_visit(n)
+            new, ch = push(n)
+            if ch and not (isinstance(new, ast.UnaryOp)) and isinstance(n.operand, ast.Compare):
+                done += 1
+                return new
+            return n
+
+        def _test(self, n):
+            nonlocal done
+            new, ch = push(n.test)
+            if ch:
+                n.test = new
+                done += 1
+
+        def visit_If(self, n):
+            nonlocal done
+            self.generic_visit(n)
+            self._test(n)
+            if n.orelse and not (len(n.orelse) == 1 and isinstance(n.orelse[0], ast.If)) \
+                    and isinstance(n.test, ast.UnaryOp) and isinstance(n.test.op, ast.Not):
+                n.test, n.body, n.orelse = n.test.operand, n.orelse, n.body
+                done += 1
+            # a two-branch `if a != b: X else: Y` is `if a == b: Y else: X` (one polarity for equality dispatch)
+            if n.orelse and not (len(n.orelse) == 1 and isinstance(n.orelse[0], ast.If)) and isinstance(n.test, ast.Compare) \
+                    and len(n.test.ops) == 1 and isinstance(n.test.ops[0], (ast.NotEq, ast.NotIn)):
+                n.test = ast.copy_location(ast.Compare(left=n.test.left, ops=[FLIP[type(n.test.ops[0])]()], comparators=n.test.comparators), n.test)
+                n.body, n.orelse = n.orelse, n.body
+                done += 1
+            return n
+
+        def visit_While(self, n):
+            self.generic_visit(n)
+            self._test(n)
+            return n
+
+        def visit_Assert(self, n):
+            self.generic_visit(n)
+            self._test(n)
+            return n
+
+        def visit_IfExp(self, n):
+            nonlocal done
+            self.generic_visit(n)
+            self._test(n)
+            if isinstance(n.test, ast.UnaryOp) and isinstance(n.test.op, ast.Not):
+                n.test, n.body, n.orelse = n.test.operand, n.orelse, n.body
+                done += 1
+            return n
+    R().visit(fn.node)
+    if done:
+        ast.fix_missing_locations(fn.node)
+    return int(done > 0)
+
+
 def normalise_casts(fn) -> int:
     """`cast(T, e)` / `typing.cast(T, e)` -> `e`, in place: at run time cast returns its second argument unchanged."""
     from .model import norm
@@ -2187,6 +2343,7 @@ def flatten_model(model) -> Optional[Flattener]:
     if ref is None:
         return None
     fl = Flattener(model, ref)
+    fl.local_renames = undo_local_renames(model)
     fl.renames = undo_private_renames(model)
     fl.constants = inline_new_constants(model)
     funcs = [f for f in model.all_functions() if f.kind != 'nested']
@@ -2206,6 +2363,7 @@ def flatten_model(model) -> Optional[Flattener]:
     fl.calls = run(normalise_calls, model)
     fl.dispatch = run(normalise_dispatch)
     fl.out_ufuncs = run(normalise_out_ufuncs)
+    fl.negations = run(normalise_negations)
     fl.casts = run(normalise_casts)
     fl.reshapes = run(normalise_reshape_spellings)
     fl.dict_builders = run(normalise_dict_builders)
@@ -2267,7 +2425,7 @@ def flatten_model(model) -> Optional[Flattener]:
     _VOCAB.clear()          # splicing changed the callers
     fl.identity_stores = run(drop_identity_stores)
     # the spliced bodies may bring spellings the first passes normalised only in the callers
-    for pass_ in (normalise_casts, normalise_out_ufuncs, normalise_reshape_spellings, normalise_dict_builders, normalise_string_locals,
+    for pass_ in (normalise_negations, normalise_casts, normalise_out_ufuncs, normalise_reshape_spellings, normalise_dict_builders, normalise_string_locals,
                   normalise_fro_norms, normalise_named_tests):
         run(pass_)
     fl.collectors = run(normalise_collectors)
